@@ -110,10 +110,6 @@ math_table = {
         "real": "creal",
         "imag": "cimag",
         "conj": "conj",
-        "max_value": "fmax",
-        "min_value": "fmin",
-        "bessel_y": "yn",
-        "bessel_j": "jn",
     },
     "complex64": {
         "sqrt": "csqrtf",
@@ -136,10 +132,6 @@ math_table = {
         "real": "crealf",
         "imag": "cimagf",
         "conj": "conjf",
-        "max_value": "fmaxf",
-        "min_value": "fminf",
-        "bessel_y": "yn",
-        "bessel_j": "jn",
     },
 }
 
@@ -366,15 +358,20 @@ class Formatter(FormatterInterface):
     @__call__.register
     def _(self, c: L.MathFunction) -> str:
         """Format a mathematical function."""
-        # Get a table of functions for this type, if available
-        arg_type = self.scalar_type
-        if hasattr(c.args[0], "dtype"):
-            if c.args[0].dtype == L.DataType.REAL:
-                arg_type = self.real_type
-        else:
+        # Get a table of functions for this type, if available. The real
+        # functions can only be used if no argument is complex valued
+        # (C would silently drop the imaginary part of such an argument)
+        if not hasattr(c.args[0], "dtype"):
             warnings.warn(f"Syntax item without dtype {c.args[0]}")
+        scalar_args = any(getattr(arg, "dtype", None) == L.DataType.SCALAR for arg in c.args)
+        arg_type = self.scalar_type if scalar_args else self.real_type
 
         dtype_math_table = math_table[arg_type.name]
+        if np.issubdtype(arg_type, np.complexfloating) and c.function not in dtype_math_table:
+            # e.g. erf, atan2, Bessel functions, min/max have no complex version
+            raise RuntimeError(
+                f"Math function '{c.function}' is not supported for complex arguments."
+            )
 
         # Get a function from the table, if available, else just use bare name
         func = dtype_math_table.get(c.function, c.function)
